@@ -4,10 +4,10 @@ import (
 	"fmt"
 	"log"
 	mrand "math/rand"
-	"sync"
 	"reflect"
 	"sort"
 	"strings"
+	"sync"
 	"unsafe"
 )
 
